@@ -392,6 +392,8 @@ def run(kmax):
         json.dump(res, open(res_path, "w"), indent=1)
     sh(["python3", os.path.join(VERIF, "tools", "gen_lean_tables.py")])
     sh(["python3", os.path.join(VERIF, "tools", "gen_footprints.py")])
+    sh(["python3", os.path.join(VERIF, "tools", "gen_formulas.py")])
+    sh(["python3", os.path.join(VERIF, "tools", "gen_loops.py")])
     return 0
 
 
